@@ -6,7 +6,9 @@ usage: controls.py <property> <repo> <workdir> <nvcheck>
 Every directory /verif/controls/<name>/ and /verif/seeded/<name>/ holding a meta.json whose "property"
 (or "properties") names the property and a patch.diff is applied to copies of the touched files of the
 *current* tree (in <workdir>, removed by the caller); the checker is run with those copies as an in-memory
-overlay (one process per control) and must exit 1 naming the property. Results go to <workdir>/controls.json.
+overlay (one process per control) and must exit 1 naming the property. Directories under /verif/benign/ are
+behaviour-preserving variants (renames, reorderings, helper extraction): on those the checker must exit 0.
+Results go to <workdir>/controls.json.
 A patch that no longer applies is "stale"; nothing here fails the check.
 """
 import json, os, re, shutil, subprocess, sys
@@ -15,7 +17,7 @@ from concurrent.futures import ThreadPoolExecutor
 prop, repo, work, binp = sys.argv[1:5]
 verif = os.path.dirname(os.path.abspath(__file__))
 cands = []
-for base in ("controls", "seeded"):
+for base in ("controls", "seeded", "benign"):
     d = os.path.join(verif, base)
     if not os.path.isdir(d):
         continue
@@ -41,7 +43,9 @@ def run(c):
         if os.path.exists(src):
             shutil.copy(src, dst)
     r = subprocess.run(["patch", "-p1", "-s", "--no-backup-if-mismatch", "-d", od, "-i", patch], capture_output=True, text=True)
-    res = {"control": name, "expects_rule": meta.get("detected_by"), "what": meta.get("what", meta.get("needs", ""))[:200]}
+    benign = name.startswith("benign/")
+    res = {"control": name, "kind": "benign variant (must stay silent)" if benign else "negative control (must be reported)",
+           "expects_rule": meta.get("detected_by"), "what": meta.get("what", meta.get("needs", ""))[:200]}
     if r.returncode != 0:
         res["result"] = "stale (patch no longer applies)"
         return res
@@ -58,7 +62,9 @@ def run(c):
     res["exit"] = r.returncode
     res["rules_fired"] = rules
     lost = "[coverage-lost]" in r.stdout
-    if r.returncode == 1 and rules:
+    if benign:
+        res["result"] = "silent" if r.returncode == 0 else "FALSE ALARM"
+    elif r.returncode == 1 and rules:
         res["result"] = "detected"
     elif r.returncode == 1 and lost:
         res["result"] = "coverage-lost only"
@@ -76,6 +82,6 @@ bad = 0
 for r in results:
     print("control %-40s %s %s" % (r["control"], r["result"], ",".join(r.get("rules_fired", []))))
     exp = next((m for n, _, m in cands if n == r["control"]), {})
-    if r["result"] != "detected" and exp.get("detected_by"):
+    if r["result"] == "FALSE ALARM" or (r["result"] != "detected" and exp.get("detected_by")):
         bad += 1
 sys.exit(1 if bad else 0)
